@@ -70,7 +70,31 @@ def relation(rounding, c, num, s):
 def judge(acc, fmt, rounding, overflow, ds, part, mono, carrier='farr'):
     """one array store; relation on every in-range element; monotonicity over the whole (sorted) input if mono.
     carrier: farr = float64 array, iarr = int64 array (integer inputs only), int = Python ints one by one"""
-    if carrier in ('farr', 'setitem'):
+    if carrier.startswith('np:'):
+        # narrow NumPy dtypes: only the inputs the dtype holds exactly
+        t = np.dtype(carrier[3:])
+        keep = []
+        for d in ds:
+            f_ = dy_float(d)
+            if t.kind in 'iu':
+                if d[1] == 0 and np.iinfo(t).min <= d[0] <= np.iinfo(t).max:
+                    keep.append(d)
+            elif np.isfinite(t.type(f_)) and float(t.type(f_)) == f_:
+                keep.append(d)
+        ds = keep
+        if not ds:
+            return
+        vals = np.array([d[0] if t.kind in 'iu' else dy_float(d) for d in ds], dtype=t)
+    elif carrier.startswith('fxp:'):
+        # the value arrives as another Fxp with two more fraction bits (holds every quarter-LSB input exactly)
+        sf = Fmt(True, 62 - max(0, fmt.n_frac + 2), fmt.n_frac + 2) if fmt.n_frac + 2 <= 40 else None
+        if sf is None:
+            return
+        ds = [d for d in ds if d[1] <= max(sf.n_frac, 0) and abs(scaled(d, sf.n_frac)[0]) < (1 << 50) and scaled(d, sf.n_frac)[1] == 0]
+        if not ds:
+            return
+        vals = None
+    elif carrier in ('farr', 'setitem'):
         vals = np.array([dy_float(d) for d in ds], dtype=np.float64)
     else:
         ds = [d for d in ds if d[1] == 0]
@@ -82,7 +106,22 @@ def judge(acc, fmt, rounding, overflow, ds, part, mono, carrier='farr'):
     acc.transitions += 1
     acc.dim('carrier', carrier, len(ds))
     try:
-        if carrier == 'setitem':
+        if carrier.startswith('fxp:'):
+            src = Fxp(np.array([scaled(d, sf.n_frac)[0] for d in ds], dtype=np.int64), sf.signed, sf.n_word, sf.n_frac, raw=True)
+            how = carrier[4:]
+            if how == 'equal':
+                x = mk(np.zeros(len(ds)), fmt, rounding, overflow)
+                x.equal(src)
+            elif how == 'set_val':
+                x = mk(np.zeros(len(ds)), fmt, rounding, overflow)
+                x.set_val(src)
+            elif how == 'like()':
+                x = src.like(mk(np.zeros(len(ds)), fmt, rounding, overflow))
+            else:
+                x = Fxp(src, fmt.signed, fmt.n_word, fmt.n_frac, rounding=rounding, overflow=overflow)
+            got, fl = codes(x), flags(x)
+            acc.transitions += 1
+        elif carrier == 'setitem':
             # an array built earlier from integers (integer value type when n_frac <= 0), then item assignment of each value
             x = mk([0] * len(ds), fmt, rounding, overflow)
             for i, d in enumerate(ds):
@@ -210,6 +249,10 @@ def run_shard(sh):
                 judge(acc, fmt, r, 'wrap', inr, 'S', False)
                 if nw <= 3:
                     judge(acc, fmt, r, 'saturate', ds, 'S', True, 'setitem')
+                if nw <= 5:
+                    for cr in ('np:float32', 'np:float16', 'np:int8', 'np:int16', 'np:int32', 'np:uint8', 'np:uint16',
+                               'fxp:equal', 'fxp:set_val', 'fxp:ctor', 'fxp:like()'):
+                        judge(acc, fmt, r, 'saturate', ds, 'S', True, cr)
                 if nf < 0:          # integer carriers take their own path through scaling when n_frac < 0
                     judge(acc, fmt, r, 'saturate', ds, 'S', True, 'iarr')
                     judge(acc, fmt, r, 'wrap', inr, 'S', False, 'iarr')
@@ -235,6 +278,9 @@ def run_shard(sh):
                     judge(acc, fmt, r, 'wrap', inr, 'G', False)
                 if nf < 0:
                     judge(acc, fmt, r, 'saturate', ds, 'G', True, 'iarr')
+                if nw in (8, 12, 16, 24, 32):
+                    for cr in ('np:float32', 'np:float16', 'np:int8', 'np:int16', 'np:int32', 'np:uint16', 'fxp:equal', 'fxp:ctor'):
+                        judge(acc, fmt, r, 'saturate', ds, 'G', True, cr)
             cs = [c for c in al.code_alphabet(fmt, sh['seed']) if in_core(qval(4 * c, fmt), fmt)]
             if cs:
                 idempotence(acc, fmt, cs, 'GI', False)
@@ -279,7 +325,7 @@ def finish(merged, tier, seed):
     for r in ROUNDINGS:
         if merged['dims']['rounding'].get(r, 0) < 1000:
             raise HarnessError('rounding %s under-exercised' % r)
-    for c in ('farr', 'iarr', 'int', 'setitem'):
+    for c in ('farr', 'iarr', 'int', 'setitem', 'np:float16', 'np:int16', 'np:uint8', 'fxp:equal', 'fxp:ctor', 'fxp:like()'):
         if merged['dims']['carrier'].get(c, 0) < 1000:
             raise HarnessError('carrier %s under-exercised' % c)
     return {}
